@@ -1511,6 +1511,7 @@ fn gen_c12_script(rng: &mut Rng, thorough: bool, with_newgame: bool, bare_go_aft
     }
     let n = rng.range(2, if thorough { 9 } else { 6 });
     let cut = if with_newgame { rng.range(1, n - 1) } else { u64::MAX };
+    let mut last_position: Option<(Option<String>, Vec<String>)> = None;
     for i in 0..n {
         if i == cut {
             newgame_at = Some(script.len());
@@ -1521,12 +1522,32 @@ fn gen_c12_script(rng: &mut Rng, thorough: bool, with_newgame: bool, bare_go_aft
         } else if rng.chance(1, 8) && !with_newgame {
             script.push(Intent::UciNewGame);
         }
+        // a `stop` with nothing to stop must leave no trace in later searches
+        if rng.chance(1, 6) {
+            script.push(Intent::Stop);
+        }
         if rng.chance(1, 4) && i > 0 && i != cut {
             script.push(Intent::PlayBest);
         } else if i == cut && bare_go_after_newgame {
             // a bare `go` right after `ucinewgame`: a fresh engine searches the start position
+        } else if i == cut && last_position.is_some() && rng.chance(1, 3) {
+            // the new game is related to the old one: the same game continued by a few moves, or the
+            // same placement with the colours of the pawns exchanged — a fresh engine knows nothing
+            // about the old game, and neither may this one
+            let (fen, moves) = last_position.clone().unwrap();
+            let base = fen.clone().unwrap_or_else(|| super::corpus::STARTPOS.to_string());
+            let twin = if rng.chance(1, 2) { super::oracle::build_position(Some(&base), &moves).ok().and_then(|g| pawn_colour_twin(&g.to_fen())) } else { None };
+            match twin {
+                Some(t) => script.push(Intent::Position { fen: Some(t), moves: vec![] }),
+                None => {
+                    let mut m = moves.clone();
+                    m.extend(playout_from(&base, &moves, rng.range(0, 3) as usize, rng));
+                    script.push(Intent::Position { fen, moves: m });
+                }
+            }
         } else {
             let (fen, moves) = gen_position(rng, false);
+            last_position = Some((fen.clone(), moves.clone()));
             script.push(Intent::Position { fen, moves });
         }
         let before_cut = with_newgame && i < cut;
